@@ -70,7 +70,13 @@ def get_sched(name):
             "new_ltf": S.new_ltf_plan}[name]
 
 
-def call_direct(name, cfg, limit=60):
+def _limit(cfg):
+    # wall-clock guard against a non-terminating scheduler loop; generous for the large records of the thorough tier
+    return 120 if cfg["N"] < 10000 else 900
+
+
+def call_direct(name, cfg, limit=None):
+    limit = limit or _limit(cfg)
     """Returns (plan, None) or (None, 'ExcType: msg')."""
     fn = get_sched(name)
     kw = dict(N=cfg["N"], fs=cfg["fs"], olap=cfg["olap"], Jdes=cfg["Jdes"], Kdes=cfg["Kdes"])
@@ -88,7 +94,8 @@ def call_direct(name, cfg, limit=60):
         return None, f"{type(e).__name__}: {e}"
 
 
-def call_analyzer(name, cfg, limit=60):
+def call_analyzer(name, cfg, limit=None):
+    limit = limit or _limit(cfg)
     from speckit.analysis import SpectrumAnalyzer
 
     try:
